@@ -35,7 +35,11 @@ def main():
         patches.append((os.path.basename(os.path.dirname(p)), p))
     for p in sorted(glob.glob(os.path.join(ROOT, 'seeded', '*', 'patch.diff'))):
         meta = os.path.join(os.path.dirname(p), 'meta.json')
-        pid = json.load(open(meta))['property'] if os.path.exists(meta) else os.path.basename(os.path.dirname(p))[:3]
+        md = json.load(open(meta)) if os.path.exists(meta) else {}
+        if md.get('obsolete'):
+            print('SKIP %s: %s' % (os.path.relpath(p, ROOT), md['obsolete'][:120]))
+            continue
+        pid = md.get('property') or os.path.basename(os.path.dirname(p))[:3]
         patches.append((pid, p))
     results = {}
     rpath = os.path.join(ROOT, 'mutants', 'RESULTS.json')
